@@ -92,7 +92,7 @@ func run(rs *rules.RuleSet, tier, evdir, findingsPath, repo, overlayPath string,
 		arch  string
 	}
 	cfgs := []cfgT{{false, ""}}
-	if tier == "thorough" {
+	if tier == "thorough" && rs.Arch386 {
 		cfgs = append(cfgs, cfgT{false, "386"})
 	}
 	var loaded []string
